@@ -61,6 +61,55 @@ def checked(ctx, path):
     from dclab.rtdc_dataset import check
     ctx.count("check_dataset_calls")
     viol, aler, info = check.check_dataset(path)
+    k = ctx.counters["check_dataset_calls"]
+    if k % 2 == 0:
+        # the same file checked through a dataset the client has opened and used before
+        # (the documented second form of the argument): same findings
+        import warnings
+        import dclab.definitions as dfn
+        from dclab.rtdc_dataset.load import load_file
+        rng = np.random.default_rng([ctx.seed, k])
+        try:
+            ds = load_file(path, enable_basins=False)
+        except Exception:
+            ctx.count("used_dataset_form_skipped[cannot open]")
+            return viol, aler
+        try:
+            used = []
+            with np.errstate(all="ignore"), warnings.catch_warnings():
+                warnings.simplefilter("ignore")
+                for f in ["index"] + list(ds.features_innate):
+                    if f != "index" and (not dfn.scalar_feature_exists(f)
+                                         or rng.random() < 0.5):
+                        continue
+                    dt = [np.float32, np.int64, np.uint8, np.float16, bool, np.float64,
+                          None][int(rng.integers(0, 7))]
+                    try:
+                        if dt is None:
+                            ds[f][int(rng.integers(0, max(1, len(ds))))]
+                        else:
+                            np.asarray(ds[f], dtype=dt)
+                        used.append([f, getattr(dt, "__name__", str(dt))])
+                    except Exception:
+                        ctx.count("used_dataset_form_access_refused")
+                v2, a2, _ = check.check_dataset(ds)
+            same = sorted(map(str, v2)) == sorted(map(str, viol)) \
+                and sorted(map(str, a2)) == sorted(map(str, aler))
+            ctx.check("c13.same_findings_for_used_dataset", same,
+                      lambda: {"file": str(path)[-40:], "client_accesses_before": used,
+                               "violations_from_path": sorted(map(str, viol)),
+                               "violations_from_used_dataset": sorted(map(str, v2)),
+                               "alerts_differ": sorted(map(str, a2)) != sorted(map(str, aler))},
+                      message="check_dataset(<open dataset the client had read from>) reports "
+                              "other findings than check_dataset(<path>) for the same file")
+        except Exception as exc:
+            ctx.raised("c13.no_exception", "check of a used dataset", exc,
+                       {"file": str(path)[-40:]})
+        finally:
+            try:
+                ds.close()
+            except Exception:
+                pass
     return viol, aler
 
 
